@@ -181,6 +181,8 @@ def _drive_given(rec: Recorder, sub: SubCheck, tier, seed, n, shrink_budget):
         @_settings(n, tier)
         @given(sub.strategy())
         def prop(case):
+            if state["first_fail_t"] is not None and time.time() - state["first_fail_t"] > shrink_budget:
+                return  # shrink budget used up: the remaining shrink attempts are not even evaluated
             v = rec.evaluate(case)
             if v.ok or v.bucket in rec.ignored:
                 return
